@@ -6,6 +6,7 @@ import (
 	"bytes"
 	"encoding/json"
 	"fmt"
+	xtxtar "golang.org/x/tools/txtar"
 	"strings"
 	"sync/atomic"
 	"unicode/utf8"
@@ -64,6 +65,14 @@ func clean(d []byte) bool {
 	return len(a.Comment) == 0 && len(a.Files) == 1 && a.Files[0].Name == "f" && bytes.Equal(a.Files[0].Data, fixNL(d))
 }
 
+// cleanRef: the same judged by the reference definition of the format
+// (golang.org/x/tools/txtar), which knows nothing of this package. Only for
+// bodies without carriage returns, which the reference does not treat specially.
+func cleanRef(d []byte) bool {
+	a := xtxtar.Parse(xtxtar.Format(&xtxtar.Archive{Files: []xtxtar.File{{Name: "f", Data: d}}}))
+	return len(a.Comment) == 0 && len(a.Files) == 1 && a.Files[0].Name == "f" && bytes.Equal(a.Files[0].Data, fixNL(d))
+}
+
 // cleanAmong: the same with a file before and a file after it (a body is stored
 // wherever its file stands in the archive).
 func cleanAmong(d []byte) bool {
@@ -111,6 +120,15 @@ func checkData(d []byte) []kit.V {
 		}
 		if !among {
 			add("body-changes-archive-between-files", fmt.Sprintf("the body %q survives Format/Parse as the only file, but not with a file before and a file after it", d))
+		}
+	}
+	if bytes.IndexByte(d, '\r') < 0 {
+		if ref := cleanRef(d); ref == nq {
+			if nq {
+				add("needsquote-true-for-harmless-body", fmt.Sprintf("NeedsQuote(%q) = true, but by the format's reference definition the body holds no marker line (it survives Format/Parse there)", d))
+			} else {
+				add("needsquote-false-for-marker-body", fmt.Sprintf("NeedsQuote(%q) = false, but by the format's reference definition the body changes how the archive parses", d))
+			}
 		}
 	}
 	if nq == cl {
